@@ -3,7 +3,7 @@ from pyvc.verify import Post, Case, Equiv, NativeFacts
 from contracts import common
 
 PROPERTY = 'C08'
-REF_MODULES = ['ref_core', 'ref_match', 'ref_reduce', 'ref_auto']
+REF_MODULES = ['ref_core', 'ref_match', 'ref_reduce', 'ref_auto', 'ref_extra']
 
 
 def config(cfg):
@@ -39,6 +39,8 @@ def contracts():
     cs.append(Equiv('core._ArgValuator.mode', 'ref_core.argmode_ref', args={'self': 'inst:core._ArgValuator', 'target': 'ref', 'spec': 'ref', 'scope': 'chainmap'},
                     loops={1: dict(vars=[('recur', 'ref')], ref_vars=[('recur', 'ref')]), 2: dict(vars=[('recur', 'ref')], ref_vars=[('recur', 'ref')]),
                            3: dict(vars=[('recur', 'ref')], ref_vars=[('recur', 'ref')])}))
+    from contracts import X_ctor
+    cs += common.shared(X_ctor, ['core._is_spec', 'core.Auto.__init__', 'core.Fill.__init__', 'grouping.Group.__init__', 'matching.Match.__init__'])
     return cs
 
 
